@@ -280,6 +280,18 @@ func mapRangeOrderSensitive(p *Program, info *types.Info, fnBody *ast.BlockStmt,
 					}
 				}
 			}
+			// ... or on the element looked up by the iterated key: m[k].Reset()
+			if sel, ok := ce.Fun.(*ast.SelectorExpr); ok {
+				if ix, ok := sel.X.(*ast.IndexExpr); ok && types.ExprString(ix.X) == types.ExprString(rs.X) {
+					if kid, ok := ix.Index.(*ast.Ident); ok && rs.Key != nil {
+						if rk, ok := rs.Key.(*ast.Ident); ok && info.ObjectOf(kid) == info.ObjectOf(rk) {
+							if fobj, ok := info.ObjectOf(sel.Sel).(*types.Func); ok && resetLike(p, fobj) {
+								return true
+							}
+						}
+					}
+				}
+			}
 			reason = "the loop body calls " + types.ExprString(ce.Fun) + ", which is not known to be order-insensitive"
 			return false
 		})
